@@ -81,7 +81,7 @@ theorem awaited_child {reqs : List Req} {s s' : Sys} (j : Nat) (h : Awaited reqs
   · exact Or.inr (Or.inl (by rw [hsame.2.1, hsame.2.2]; exact h1))
   · exact Or.inr (Or.inr (reaped_child j hs h1))
 
-theorem awaited_parent {reqs : List Req} {s s' : Sys} (hinv : Inv s) (h : Awaited reqs s)
+theorem awaited_parent {reqs : List Req} {s s' : Sys} (_hinv : Inv s) (h : Awaited reqs s)
     (hs : parentStep s = some s') : Awaited reqs s' := by
   unfold parentStep at hs
   split at hs
